@@ -17,14 +17,17 @@ import registry_run
 
 HARNESSES = ()
 MLS = ("registry",)
-THEOREMS = []
+THEOREMS = ["C04_refines_partial", "C04_refines_outside_exceptions", "C04_exceptions_are_the_only_difference",
+            "C04_queue_position_refuted", "C04_limit_rerequest_refuted", "C04_full_statement_refuted",
+            "C04_single_primary", "C04_invariant", "C04_reserved", "C04_queries_agree", "C04_signals_before_reply",
+            "C04_reply_code_meaning", "C04_no_assertion_reached"]
 
 NPROC = vlib.NPROC
 
 VALID = ["com.example.A", "com.example.B", "org.x.y-z", "a.b"]
 LONG_OK = "a." + "b" * 253          # 255 bytes: longest valid name
 LONG_BAD = "a." + "b" * 254         # 256 bytes
-INVALID = ["", "foo", ":1.0", ":1.7", ":x.y", ":", "org.freedesktop.DBus", ".a.b", "a..b", "a.b.", "a.1b", "a.b c", "a.b/c",
+INVALID = ["", "foo", ":1.0", ":1.1", ":1.7", ":x.y", ":", "org.freedesktop.DBus", ".a.b", "a..b", "a.b.", "a.1b", "a.b c", "a.b/c",
            "a.é", LONG_BAD]
 NEAR_BUS = ["org.freedesktop.DBusx", "org.freedesktop.DBu"]   # valid, not the bus name
 FLAGS_ODD = [0x8, 0x10, 0xfffffff8, 0x80000000, 0xffffffff, 0xfffffffb, 0x80000002, 0x40000004, 0x9, 0xa, 0xc, 0xe]
